@@ -104,9 +104,9 @@ class Libs:
                 "INSERT INTO post (id, title, rating, author_id) VALUES (%s, %s, %s, %s)",
                 [(r["id"], r["title"], r["rating"], r["author_id"]) for r in data["Post"]])
             cur.executemany(
-                "INSERT INTO comment (id, body, post_id, writer_id, reviewer_id) "
+                "INSERT INTO comment (id, body, post_id, writer_id, co_writer_id) "
                 "VALUES (%s, %s, %s, %s, %s)",
-                [(r["id"], r["body"], r["post_id"], r["writer_id"], r.get("reviewer_id"))
+                [(r["id"], r["body"], r["post_id"], r["writer_id"], r.get("co_writer_id"))
                  for r in data["Comment"]])
 
 
